@@ -79,7 +79,7 @@ pub fn recv(&mut self, stop_timer: &mut Option<Timer>, env: &mut Env) -> (r: Opt
             && (!(*old(stop_timer))->Some_0.is_restart ==> r->Some_0.control is Stop), // OBL:C06+C07+C09.recv.timer_control_carries_flag_and_kind
         // an expired timer is served first, before any queued message, and consumes nothing
         (*old(stop_timer)) is Some && (*old(stop_timer))->Some_0.until.t <= old(env).now@ ==> (*final(stop_timer)) is None
-            && is_prefix_grown(old(env).urgent@, final(env).urgent@) && is_prefix_grown(old(env).high@, final(env).high@) && is_prefix_grown(old(env).normal@, final(env).normal@), // OBL:C06+C09+C05.recv.expired_timer_first
+            && is_prefix_grown(old(env).urgent@, final(env).urgent@) && is_prefix_grown(old(env).high@, final(env).high@) && is_prefix_grown(old(env).normal@, final(env).normal@), // OBL:C06+C09+C05+C08.recv.expired_timer_first
         // while the timer stays armed it is unchanged, and the normal queue is never consumed
         (*old(stop_timer)) is Some ==> is_prefix_grown(old(env).normal@, final(env).normal@), // OBL:C06+C08+C09.recv.normal_held_back_while_armed
         (*old(stop_timer)) is Some && (*final(stop_timer)) is Some ==> (*final(stop_timer))->Some_0.until == (*old(stop_timer))->Some_0.until
@@ -325,7 +325,7 @@ $CH_CONTRACT
 // ---- the child-ended handler (select arm 1 of start_job): `result = command_state.wait(), if command_state.is_running()` ----
 //@ item wait_handler
 //@ header
-fn wait_handler($STATE_PARAMS) -> (r: Loop)
+fn wait_handler(done: &Flag, $STATE_PARAMS) -> (r: Loop)
     requires
         inv_live(&*old(command_state), old(env)),
         inv_restart(*old(stop_timer), *old(on_end_restart), old(env)),
@@ -339,7 +339,7 @@ fn wait_handler($STATE_PARAMS) -> (r: Loop)
         inv_restart(*final(stop_timer), *final(on_end_restart), final(env)), // OBL:C07.wait_handler.restart_ticket_stays_covered
         // only tickets that were waiting for this process to end are resolved, and only if it did end
         forall|f: int| final(env).raised@.contains(f) ==> old(env).raised@.contains(f)
-            || (reaped_in($ENVS, cs_view(&*old(command_state))) && parked(f, *old(stop_timer), old(on_end)@, *old(on_end_restart))), // OBL:C09.wait_handler.no_early_resolution
+            || (reaped_in($ENVS, cs_view(&*old(command_state))) && parked(f, *old(stop_timer), old(on_end)@, *old(on_end_restart))), // OBL:C09+C07+C10.wait_handler.no_early_resolution
         c09_child_ended($OV, $FV, $ENVS, command, r is Skip), // OBL:C06+C07+C09.wait_handler.child_ended
         !(r is Break), // OBL:C09.wait_handler.never_ends_the_job
         final(env).now@ >= old(env).now@, senders_kept(old(env), final(env)),
